@@ -47,7 +47,7 @@ FS_METHODS = {"read_bytes", "write_bytes", "read_text", "write_text", "exists", 
               "symlink_to", "hardlink_to", "chmod", "owner", "group", "madvise"}
 # `read`/`write`/`close` are too generic to ban by name on unknown receivers inside protobuf code; they are banned on receivers that
 # are known file objects (results of open()).
-NONDET_CALLS = {"id", "time.time", "time.monotonic", "time.perf_counter", "time.time_ns", "random.random", "random.randint", "random.choice",
+NONDET_CALLS = {"time.time", "time.monotonic", "time.perf_counter", "time.time_ns", "random.random", "random.randint", "random.choice",
                 "random.shuffle", "uuid.uuid4", "uuid.uuid1", "os.urandom", "os.getpid", "datetime.datetime.now", "datetime.datetime.utcnow",
                 "secrets.token_hex", "secrets.token_bytes"}
 NONDET_PREFIXES = ("random.", "uuid.", "secrets.", "numpy.random.")
@@ -60,6 +60,10 @@ DUNDER_OF_BUILTIN = {"len": ["__len__"], "str": ["__str__", "__repr__"], "repr":
                      "int": ["__int__", "__index__"], "float": ["__float__"], "bytes": ["__bytes__", "__iter__"], "abs": ["__abs__"], "getattr": [], "setattr": [],
                      "isinstance": [], "issubclass": [], "type": [], "print": ["__str__"], "map": ["__iter__"], "filter": ["__iter__"], "range": ["__index__"]}
 DISPLAY = {"__str__", "__repr__", "__format__"}
+# library-container methods that mutate their receiver: a call on anything but a protobuf object or a local fresh container is a store
+MUTATORS = {"append", "extend", "insert", "pop", "remove", "clear", "update", "setdefault", "add", "discard", "sort", "reverse", "popitem",
+            "popleft", "appendleft", "rotate", "fill", "put", "itemset", "setflags", "difference_update", "intersection_update",
+            "symmetric_difference_update", "move_to_end", "subtract"}
 ARRAY_CALLS = {"numpy.array", "numpy.asarray", "numpy.ascontiguousarray", "numpy.asanyarray", "numpy.stack", "numpy.concatenate"}
 
 
@@ -90,6 +94,7 @@ class Repo:
         self.getters_by_name = {}
         self.setters_by_name = {}
         self.module_assign = {}      # module -> {name: ast expr}  (aliases such as _serialize_metadata_props_into = f)
+        self.container_elem = {}     # class deriving from a library container -> element class names
         self.field_ann = {}          # class -> {field: [annotation class names]} from `self.f: T = ...` / `self.f = <annotated parameter>`
         self._load()
 
@@ -130,6 +135,8 @@ class Repo:
                 if isinstance(b, ast.Subscript):
                     v = b.value
                     n = v.attr if isinstance(v, ast.Attribute) else v.id if isinstance(v, ast.Name) else None
+                    if n in ("UserList", "UserDict", "Sequence", "Mapping", "MutableSequence", "MutableMapping", "Iterator", "Reversible", "Collection"):
+                        self.container_elem.setdefault(st.name, []).extend(x for x in ann_class(b.slice) if x not in ("str", "int"))
                 if n:
                     info["bases"].append(n)
             for it in st.body:
@@ -153,6 +160,9 @@ class Repo:
                     tab = {"method": self.methods_by_name, "getter": self.getters_by_name, "setter": self.setters_by_name}.get(kind)
                     if tab is not None:
                         tab.setdefault(it.name, []).append(f)
+                elif isinstance(it, ast.AnnAssign) and isinstance(it.target, ast.Name):
+                    tab = self.field_ann.setdefault(st.name, {})
+                    tab[it.target.id] = tab.get(it.target.id, []) + ann_class(it.annotation)
                 elif isinstance(it, ast.Assign) and len(it.targets) == 1 and isinstance(it.targets[0], ast.Name):
                     # alias inside a class body:  __rmul__ = __mul__
                     if isinstance(it.value, ast.Name) and it.value.id in info["methods"]:
@@ -312,6 +322,11 @@ def ann_class(ann):
             out.append(n.attr)
         elif isinstance(n, ast.Name):
             out.append(n.id)
+        elif isinstance(n, ast.Constant) and isinstance(n.value, str) and n is not ann:
+            try:
+                out.extend(ann_class(ast.parse(n.value, mode="eval").body))
+            except SyntaxError:
+                pass
     return out
 
 
@@ -328,9 +343,32 @@ class Direct:
         self.unknown_methods = {}
 
 
+SCALAR_LIB = {"str", "int", "float", "bool", "bytes", "bytearray", "complex", "ndarray", "dtype", "Path", "PathLike", "memoryview", "None",
+              "Literal", "DTypeLike", "NDArray", "generic", "number", "integer", "floating", "uint8", "int8", "uint16", "int16", "uint32",
+              "int32", "uint64", "int64", "float16", "float32", "float64", "bool_", "ArrayLike", "Number", "Real", "Integral", "SupportsIndex",
+              "SupportsInt", "BufferedIOBase", "IOBase", "BinaryIO", "TextIO", "IO", "Pattern", "Match", "Logger", "slice"}
+CONTAINER_LIB = {"list", "dict", "set", "tuple", "frozenset", "Sequence", "Mapping", "Iterable", "Collection", "Iterator", "MutableMapping",
+                 "MutableSequence", "AbstractSet", "Optional", "Union", "List", "Dict", "Set", "Tuple", "FrozenSet", "Generator", "KeysView", "ValuesView", "ItemsView"}
+PASSTHROUGH_ROOTS = ("copy.", "dataclasses.", "functools.", "itertools.", "contextlib.", "typing.", "operator.", "weakref.", "collections.",
+                     "heapq.", "bisect.", "abc.", "types.", "inspect.", "builtins.", "typing_extensions.", "concurrent.", "threading.", "queue.")
+LIB_RESULT_ROOTS = ("numpy.", "math.", "os.path.", "os.fspath", "struct.", "textwrap.", "re.", "json.", "hashlib.", "base64.")
 LIB_TYPES = {"str", "int", "float", "bool", "bytes", "bytearray", "list", "dict", "set", "tuple", "frozenset", "Sequence", "Mapping", "Iterable",
              "Collection", "Any", "Callable", "Iterator", "MutableMapping", "MutableSequence", "None", "Optional", "Union", "ndarray", "dtype", "object",
              "Path", "PathLike", "Literal", "Self", "TypeVar", "Generic", "AbstractSet", "Hashable", "memoryview", "complex", "type", "Type"}
+
+
+def lib_call_result(dotted):
+    """static type of the result of calling a library function/class by dotted name."""
+    full = "numpy" + dotted[2:] if dotted.startswith("np.") else dotted
+    if full.split(".")[-1].endswith("Proto") or full.startswith("onnx.") and full.split(".")[-1][:1].isupper() and "helper" not in full:
+        return ("proto", full)
+    if full.startswith(PASSTHROUGH_ROOTS) or "." not in full:
+        return None           # may hand back (a copy of / a wrapper around) one of its arguments
+    return ("lib", full + "()")
+
+
+BUILTIN_LIB_RESULT = {"open", "str", "int", "float", "bool", "bytes", "len", "repr", "format", "hash", "id", "abs", "round", "ord", "chr", "bytearray",
+                      "isinstance", "issubclass", "hasattr", "callable", "range", "divmod", "pow", "hex", "oct", "bin", "complex", "memoryview"}
 
 
 class Analyzer:
@@ -354,33 +392,40 @@ class Analyzer:
         for n in ast.walk(node):
             if isinstance(n, ast.AnnAssign) and isinstance(n.target, ast.Name):
                 types.setdefault(n.target.id, self._classify(fn, ann_class(n.annotation)))
-            elif isinstance(n, ast.Assign) and len(n.targets) == 1 and isinstance(n.targets[0], ast.Name) and isinstance(n.value, ast.Call):
-                d = dotted_name(n.value.func)
-                if d:
-                    r = self._resolve_name(fn, d)
-                    if r and r[0] == "class":
-                        prev = types.get(n.targets[0].id)
-                        if prev is None:
-                            types[n.targets[0].id] = ("repo", self.repo.family(r[1]))
-                    elif r and r[0] == "lib" and n.targets[0].id not in types:
-                        types[n.targets[0].id] = ("lib", r[1])
         return types
 
     def _classify(self, fn, names):
+        """static type of an annotation: ('repo', classes) | ('proto', desc) | ('lib', desc) | None (unknown: Any, object, TypeVars...).
+        'proto' and 'lib' are closed under attribute access, calls, subscripts and iteration (protobuf messages contain protobuf
+        messages and scalars; str/int/bytes/ndarray and containers of them contain no IR object)."""
         repo_cls = set()
-        lib = False
+        scalar = proto = False
+        other = False
         for c in names:
             if c in self.repo.classes:
                 repo_cls |= self.repo.family(c)
-            elif c in LIB_TYPES or c.endswith("Proto") or c in ("onnx", "np", "numpy", "typing", "npt", "proto_containers", "os", "collections", "abc"):
-                lib = True
+            elif c.endswith("Proto") or c in ("RepeatedCompositeFieldContainer", "RepeatedScalarFieldContainer", "Dimension"):
+                proto = True
+            elif c in SCALAR_LIB:
+                scalar = True
+            elif c in CONTAINER_LIB or c in ("onnx", "np", "numpy", "typing", "npt", "proto_containers", "os", "collections", "abc"):
+                continue
             elif c in self.repo.modules or any(m.endswith("." + c) for m in self.repo.modules):
                 continue
             else:
-                lib = True
+                other = True
+        if other and "onnx" in names and not repo_cls:
+            other = False
+            proto = True              # onnx.<Message> (TensorAnnotation, StringStringEntryProto, ...)
         if repo_cls:
+            if any(c in CONTAINER_LIB for c in names):
+                return ("cont", repo_cls)          # a library container of repository objects (and possibly scalars)
             return ("repo", repo_cls)
-        if lib:
+        if other:
+            return None
+        if proto:
+            return ("proto", ",".join(names))
+        if scalar:
             return ("lib", ",".join(names))
         return None
 
@@ -409,9 +454,16 @@ class Analyzer:
         d = Direct()
         self.cache[fn.qual] = d
         types = self.local_types(fn)
+        ann_locals = set(types)
         file_vars = set()
         local_defs = {n.name for n in ast.walk(fn.node) if isinstance(n, (ast.FunctionDef, ast.AsyncFunctionDef)) and n is not fn.node}
         params = {a.arg for a in fn.node.args.posonlyargs + fn.node.args.args + fn.node.args.kwonlyargs}
+        local_names = set(params)
+        for n in ast.walk(fn.node):
+            if isinstance(n, ast.Name) and isinstance(n.ctx, ast.Store):
+                local_names.add(n.id)
+            elif isinstance(n, ast.arg):
+                local_names.add(n.arg)
 
         def add_methods(recv_type, name, kinds, lineno, what):
             if recv_type and recv_type[0] == "repo":
@@ -419,8 +471,13 @@ class Analyzer:
                 for f in fs:
                     d.callees.add(f)
                 return bool(fs)
-            if recv_type and recv_type[0] == "lib":
+            if recv_type and recv_type[0] in ("lib", "proto", "mod", "cont", "lcont"):
                 return False
+            if recv_type and recv_type[0] == "cls":
+                fs = self.repo.lookup_methods(self.repo.family(recv_type[1]), name, kinds)
+                for f in fs:
+                    d.callees.add(f)
+                return bool(fs)
             tab = {"method": self.repo.methods_by_name, "getter": self.repo.getters_by_name, "setter": self.repo.setters_by_name}
             hit = False
             for k in kinds:
@@ -431,85 +488,179 @@ class Analyzer:
 
         def ret_type(fns):
             """union of the return annotations of candidate callees; None when any is missing/unknown."""
-            repo_cls, lib = set(), False
+            repo_cls, kinds = set(), set()
             for g in fns:
                 if g.node.returns is None:
                     return None
                 names = [x for x in ann_class(g.node.returns) if x != "None"]
                 if "Self" in names and g.cls:
                     names = [x for x in names if x != "Self"] + [g.cls]
-                t = Analyzer._classify(self, g, names) if names else ("lib", "None")
+                if not names:
+                    kinds.add("lib")
+                    continue
+                t = Analyzer._classify(self, g, names)
                 if t is None:
                     return None
-                if t[0] == "repo":
+                if t[0] in ("repo", "cont"):
                     repo_cls |= t[1]
-                else:
-                    lib = True
-            if repo_cls and lib:
+                kinds.add(t[0])
+            if len(kinds) != 1:
                 return None
-            return ("repo", repo_cls) if repo_cls else ("lib", "ret") if lib else None
+            k = kinds.pop()
+            return (k, repo_cls) if k in ("repo", "cont") else (k, "ret")
+
+        CLOSED = ("proto", "lib")
+
+        def elem_of(classes):
+            """element classes when every class of the (non-protocol part of the) family is a container of repository objects."""
+            out, n = set(), 0
+            for c in classes:
+                names = self.repo.container_elem.get(c)
+                if names:
+                    n += 1
+                    for x in names:
+                        if x in self.repo.classes:
+                            out |= self.repo.family(x)
+            return out if n else None
 
         def recv_type(e):
             if isinstance(e, ast.Name):
                 if e.id in types and types[e.id] is not None:
                     return types[e.id]
+                if e.id in types or e.id in local_names:
+                    return None
                 r = self._resolve_name(fn, e.id)
                 if r and r[0] in ("module", "lib"):
-                    return ("lib", r[1])
+                    return ("mod", r[1])
+                if r and r[0] == "class":
+                    return ("cls", r[1])
                 return None
             if isinstance(e, ast.Call):
-                dn = dotted_name(e.func)
-                if dn:
+                f = e.func
+                if isinstance(f, ast.Name) and f.id not in types and f.id not in local_names and self._resolve_name(fn, f.id) is None:
+                    if f.id in BUILTIN_LIB_RESULT:
+                        return ("lib", f.id + "()")
+                    if f.id == "getattr" and e.args:
+                        b = recv_type(e.args[0])
+                        return b if b and b[0] == "proto" else None
+                    if f.id == "super" and fn.cls:
+                        return ("repo", self.repo.family(fn.cls))
+                    if f.id in ("reversed", "sorted", "list", "tuple", "iter", "next", "enumerate", "zip", "min", "max", "set", "frozenset") and e.args:
+                        b = recv_type(e.args[0])
+                        if b and b[0] == "cont" and f.id in ("reversed", "sorted", "list", "tuple", "iter", "set", "frozenset"):
+                            return b
+                        if b and b[0] == "cont" and f.id in ("next", "min", "max"):
+                            return ("repo", b[1])
+                        return b if b and b[0] in CLOSED else None
+                    return None
+                dn = dotted_name(f)
+                if dn and dn.split(".")[0] not in types and dn.split(".")[0] not in local_names:
                     r = self._resolve_name(fn, dn)
                     if r and r[0] == "class":
                         return ("repo", self.repo.family(r[1]))
                     if r and r[0] == "lib":
-                        return ("lib", r[1])
+                        return lib_call_result(r[1])
                     if r and r[0] == "fn":
                         return ret_type([r[1]])
                     if r and r[0] == "fns":
                         return ret_type(r[1])
-                if isinstance(e.func, ast.Name) and e.func.id == "super" and fn.cls:
-                    return ("repo", self.repo.family(fn.cls))
-                if isinstance(e.func, ast.Attribute):
-                    base = recv_type(e.func.value)
+                if isinstance(f, ast.Attribute):
+                    base = recv_type(f.value)
                     if base and base[0] == "repo":
-                        ms = self.repo.lookup_methods(base[1], e.func.attr, ("method",))
+                        ms = self.repo.lookup_methods(base[1], f.attr, ("method",))
                         if ms:
                             return ret_type(ms)
-                    if base and base[0] == "lib":
-                        return ("lib", base[1] + "." + e.func.attr + "()")
+                        el = elem_of(base[1])
+                        if el and f.attr in ("values", "get", "pop", "popitem", "setdefault", "copy", "items", "keys"):
+                            return ("repo", el) if f.attr in ("get", "pop", "setdefault") else ("cont", el)
+                        return None
+                    if base and base[0] in CLOSED:
+                        return (base[0], base[1] + "." + f.attr + "()")
+                    if base and base[0] == "mod":
+                        return lib_call_result(base[1] + "." + f.attr)
+                    if base and base[0] == "cont":
+                        if f.attr in ("values", "get", "pop", "popitem", "setdefault", "__getitem__", "copy", "items", "keys", "popleft"):
+                            return ("repo", base[1]) if f.attr in ("get", "pop", "setdefault", "__getitem__", "popleft") else ("cont", base[1])
+                        return None
                 return None
             if isinstance(e, ast.Attribute):
                 dn = dotted_name(e)
-                if dn:
+                if dn and dn.split(".")[0] not in types and dn.split(".")[0] not in local_names:
                     r = self._resolve_name(fn, dn)
                     if r and r[0] in ("module", "lib"):
-                        return ("lib", r[1])
+                        return ("mod", r[1])
                     if r and r[0] == "class":
-                        return ("repo", self.repo.family(r[1]))
+                        return ("cls", r[1])
                 base = recv_type(e.value)
-                if base and base[0] == "lib":
-                    return ("lib", base[1] + "." + e.attr)        # an attribute of a library object is a library object
+                if base and base[0] in CLOSED:
+                    return (base[0], base[1] + "." + e.attr)
+                if base and base[0] == "mod":
+                    return ("mod", base[1] + "." + e.attr)
                 if base and base[0] == "repo":
                     gs = self.repo.lookup_methods(base[1], e.attr, ("getter",))
-                    if gs:
-                        return ret_type(gs)
-                if base and base[0] == "repo" and isinstance(e.value, ast.Name) and e.value.id == "self" and fn.cls:
                     names = []
-                    for c in self.repo.family(fn.cls):
+                    for c in base[1]:
                         names += self.repo.field_ann.get(c, {}).get(e.attr, [])
-                    if names and "?" not in names:
-                        return self._classify(fn, [x for x in names if x != "None"]) or ("lib", "None")
+                    tg = ret_type(gs) if gs else None
+                    tf = self._classify(fn, [x for x in names if x != "None"]) if names and "?" not in names else None
+                    if gs and not names:
+                        return tg
+                    if names and not gs:
+                        return tf
+                    if tg and tf and tg[0] == tf[0]:
+                        return (tg[0], tg[1] | tf[1]) if tg[0] in ("repo", "cont") else tg
+                    if tg and tf and tg[0] == "repo" and tf[0] == "cont" and elem_of(tg[1]):
+                        return tg          # a repository container class (getter) implementing the protocol's Mapping/Sequence annotation
                 return None
-            if isinstance(e, ast.Constant) or isinstance(e, (ast.JoinedStr, ast.List, ast.Dict, ast.Set, ast.Tuple, ast.ListComp, ast.DictComp, ast.SetComp)):
+            if isinstance(e, ast.Subscript):
+                base = recv_type(e.value)
+                if base and base[0] == "cont":
+                    return ("cont", base[1]) if isinstance(e.slice, ast.Slice) else ("repo", base[1])
+                return base if base and base[0] in CLOSED else None
+            if isinstance(e, ast.Constant) or isinstance(e, ast.JoinedStr):
                 return ("lib", "literal")
+            if isinstance(e, (ast.List, ast.Dict, ast.Set, ast.Tuple, ast.ListComp, ast.DictComp, ast.SetComp, ast.GeneratorExp)):
+                return ("lcont", "literal container")      # a builtin container created here: its methods are library methods
+            if isinstance(e, (ast.BinOp,)):
+                a, b = recv_type(e.left), recv_type(e.right)
+                return a if a and b and a[0] == "lib" and b[0] == "lib" else None
+            if isinstance(e, ast.IfExp):
+                a, b = recv_type(e.body), recv_type(e.orelse)
+                return a if a and b and a[0] == b[0] and a[0] in CLOSED else None
             return None
+
+        def store_kind(e):
+            """where a stored-to object lives: 'out' = a protobuf message / library object rooted at a protobuf-typed name or at a
+            local fresh container (never part of the IR); otherwise the static type kind of the receiver (an IR-side store)."""
+            x = e
+            while True:
+                if isinstance(x, (ast.Attribute, ast.Subscript)):
+                    x = x.value
+                elif isinstance(x, ast.Call) and isinstance(x.func, ast.Attribute):
+                    x = x.func.value
+                else:
+                    break
+            rt = recv_type(e)
+            if isinstance(x, ast.Name):
+                root = types.get(x.id)
+                if root and root[0] == "proto":
+                    return "out"
+                if root and root[0] in ("lcont", "lib") and x.id not in params:
+                    return "out"
+                if root is None and x.id not in local_names:
+                    r = recv_type(x)
+                    if r and r[0] in ("mod", "cls"):
+                        return "global"
+            elif isinstance(x, ast.Call):
+                r = recv_type(x)
+                if r and r[0] in ("proto", "lib", "lcont"):
+                    return "out"
+            return rt[0] if rt else None
 
         def dunder(e, names, lineno):
             rt = recv_type(e)
             if any(nm in DISPLAY for nm in names):
-                if not (isinstance(e, ast.Constant) or (rt and rt[0] == "lib")):
+                if not (isinstance(e, ast.Constant) or (rt and rt[0] in ("lib", "proto", "mod", "cls", "lcont"))):
                     d.formats.append((lineno, ast.unparse(e), rt))
                     if rt and rt[0] == "repo":
                         for nm in names:
@@ -535,13 +686,10 @@ class Analyzer:
                                 d.fs.append((n.lineno, "open()"))
                             if root == "setattr" and len(n.args) >= 2:
                                 attr = n.args[1].value if isinstance(n.args[1], ast.Constant) else "<dynamic>"
-                                d.writes.append((n.lineno, ast.unparse(n.args[0]), str(attr), recv_type(n.args[0])))
+                                d.writes.append((n.lineno, ast.unparse(n.args[0]), str(attr), (store_kind(n.args[0]),)))
                             handled = True
                         elif root == "open":
                             d.fs.append((n.lineno, "open()"))
-                            handled = True
-                        elif root == "id":
-                            d.nondet.append((n.lineno, "id()"))
                             handled = True
                     if not handled and not (isinstance(f, ast.Attribute) and root in types and root not in self.repo.imports[fn.module]) \
                             and not (root in params or root in ("self", "cls")):
@@ -576,6 +724,9 @@ class Analyzer:
                         hit = add_methods(rt, name, ("method",), n.lineno, name)
                         # a property returning a callable, or a callable attribute
                         add_methods(rt, name, ("getter",), n.lineno, name)
+                        if name in MUTATORS and not hit:
+                            if store_kind(f.value) != "out":
+                                d.writes.append((n.lineno, ast.unparse(f.value), f".{name}()", (store_kind(f.value),)))
                         if name in ("debug", "info", "warning", "error", "exception", "critical", "warn", "log") and not hit:
                             for a in n.args[1:]:
                                 dunder(a, ["__str__", "__repr__", "__format__"], n.lineno)
@@ -613,11 +764,11 @@ class Analyzer:
             def _store(w, t, lineno):  # noqa: N805
                 if isinstance(t, ast.Attribute):
                     rt = recv_type(t.value)
-                    d.writes.append((lineno, ast.unparse(t.value), t.attr, rt))
+                    d.writes.append((lineno, ast.unparse(t.value), t.attr, (store_kind(t.value), rt[1] if rt and rt[0] == "repo" else None)))
                     add_methods(rt, t.attr, ("setter",), lineno, t.attr)
                 elif isinstance(t, ast.Subscript):
                     rt = recv_type(t.value)
-                    d.writes.append((lineno, ast.unparse(t.value), "[]", rt))
+                    d.writes.append((lineno, ast.unparse(t.value), "[]", (store_kind(t.value),)))
                     add_methods(rt, "__setitem__", ("method",), lineno, "__setitem__")
                 elif isinstance(t, (ast.Tuple, ast.List)):
                     for e in t.elts:
@@ -644,9 +795,9 @@ class Analyzer:
             def visit_Delete(w, n):  # noqa: N805
                 for t in n.targets:
                     if isinstance(t, ast.Attribute):
-                        d.writes.append((n.lineno, ast.unparse(t.value), t.attr, recv_type(t.value)))
+                        d.writes.append((n.lineno, ast.unparse(t.value), t.attr, (store_kind(t.value),)))
                     elif isinstance(t, ast.Subscript):
-                        d.writes.append((n.lineno, ast.unparse(t.value), "[]", recv_type(t.value)))
+                        d.writes.append((n.lineno, ast.unparse(t.value), "[]", (store_kind(t.value),)))
                         add_methods(recv_type(t.value), "__delitem__", ("method",), n.lineno, "__delitem__")
                 w.generic_visit(n)
 
@@ -715,47 +866,77 @@ class Analyzer:
                     for v in e.values:
                         w._truth(v)
 
-        # flow-insensitive local typing: a variable assigned only expressions of known type gets the union; two rounds for chains
-        for _round in range(2):
+        # flow-insensitive local typing: a variable all of whose bindings have a known static type gets their union; 3 rounds for chains
+        def bind(assigned, target, t, value=None):
+            if isinstance(target, ast.Name):
+                if t is None and value is not None and any(isinstance(x, ast.Name) and x.id == target.id for x in ast.walk(value)):
+                    t = ("self-derived",)
+                assigned.setdefault(target.id, []).append(t)
+            elif isinstance(target, (ast.Tuple, ast.List)):
+                for x in target.elts:
+                    bind(assigned, x, t if t and t[0] in CLOSED else None)
+            elif isinstance(target, ast.Starred):
+                bind(assigned, target.value, t if t and t[0] in CLOSED else None)
+
+        for _round in range(3):
             assigned = {}
             for n in ast.walk(fn.node):
-                tgt = val = None
-                if isinstance(n, ast.Assign) and len(n.targets) == 1 and isinstance(n.targets[0], ast.Name):
-                    tgt, val = n.targets[0].id, n.value
-                elif isinstance(n, ast.AnnAssign) and isinstance(n.target, ast.Name) and n.value is not None:
-                    tgt, val = n.target.id, n.value
-                elif isinstance(n, ast.NamedExpr) and isinstance(n.target, ast.Name):
-                    tgt, val = n.target.id, n.value
-                elif isinstance(n, (ast.For, ast.comprehension)) or isinstance(n, ast.withitem) or isinstance(n, ast.ExceptHandler):
-                    t = n.target if isinstance(n, (ast.For, ast.comprehension)) else getattr(n, "optional_vars", None)
-                    for x in ast.walk(t) if t is not None else []:
-                        if isinstance(x, ast.Name):
-                            assigned.setdefault(x.id, []).append(None)
-                    continue
-                elif isinstance(n, (ast.Assign,)):
-                    for t in n.targets:
-                        for x in ast.walk(t):
-                            if isinstance(x, ast.Name) and isinstance(x.ctx, ast.Store):
-                                assigned.setdefault(x.id, []).append(None)
-                    continue
-                if tgt is None:
-                    continue
-                if isinstance(val, ast.Constant) and val.value is None:
-                    continue
-                assigned.setdefault(tgt, []).append(recv_type(val))
+                if isinstance(n, ast.Assign):
+                    t = recv_type(n.value)
+                    if isinstance(n.value, ast.Constant) and n.value.value is None:
+                        continue
+                    for tg in n.targets:
+                        bind(assigned, tg, t, n.value)
+                elif isinstance(n, ast.AnnAssign) and n.value is not None:
+                    if not (isinstance(n.value, ast.Constant) and n.value.value is None):
+                        bind(assigned, n.target, recv_type(n.value))
+                elif isinstance(n, ast.AugAssign):
+                    if isinstance(n.target, ast.Name):
+                        assigned.setdefault(n.target.id, []).append(("self-derived",))
+                elif isinstance(n, ast.NamedExpr):
+                    bind(assigned, n.target, recv_type(n.value))
+                elif isinstance(n, (ast.For, ast.comprehension)):
+                    it = recv_type(n.iter)
+                    if it and it[0] == "cont" and isinstance(n.target, ast.Name):
+                        bind(assigned, n.target, ("repo", it[1]))
+                    elif it and it[0] == "repo" and isinstance(n.target, ast.Name) and elem_of(it[1]) and not self.repo.lookup_methods(it[1], "__iter__"):
+                        bind(assigned, n.target, ("repo", elem_of(it[1])))
+                    else:
+                        bind(assigned, n.target, it if it and it[0] in CLOSED else None)
+                elif isinstance(n, ast.withitem) and n.optional_vars is not None:
+                    bind(assigned, n.optional_vars, None)
+                elif isinstance(n, ast.ExceptHandler) and n.name:
+                    assigned.setdefault(n.name, []).append(("lib", "exception"))
+                elif isinstance(n, (ast.Import, ast.ImportFrom)):
+                    for al in n.names:
+                        assigned.setdefault(al.asname or al.name.split(".")[0], []).append(None)
             for k, ts in assigned.items():
                 if k in params:
                     continue
-                if any(t is None for t in ts):
+                if any(t is None or t[0] in ("mod", "cls", "cont") for t in ts) and not all(t is not None and t[0] in ("cont", "self-derived") for t in ts):
+                    types.pop(k, None) if k not in ann_locals else None
                     continue
-                rc = set()
-                for t in ts:
-                    if t[0] == "repo":
+                kinds = {t[0] for t in ts}
+                if "self-derived" in kinds:
+                    kinds.discard("self-derived")
+                    ts = [t for t in ts if t[0] != "self-derived"]
+                    if not (len(kinds) == 1 and next(iter(kinds)) in CLOSED):
+                        types.pop(k, None) if k not in ann_locals else None
+                        continue
+                if kinds == {"cont"}:
+                    rc = set()
+                    for t in ts:
                         rc |= t[1]
-                if rc and all(t[0] == "repo" for t in ts):
+                    types[k] = ("cont", rc)
+                elif kinds == {"repo"}:
+                    rc = set()
+                    for t in ts:
+                        rc |= t[1]
                     types[k] = ("repo", rc)
-                elif not rc:
-                    types[k] = ("lib", "local")
+                elif len(kinds) == 1:
+                    types[k] = (kinds.pop(), "local")
+        d.types = dict(types)
+        d.recv_type = recv_type
         W().visit(fn.node)
         return d
 
